@@ -41,7 +41,7 @@ def plan(tier, seed):
     fams = []
     for f, w in catalogue.WEIGHTS.items():
         fams += [f] * w
-    return [{"family": fams[i % len(fams)], "i": i} for i in range(n)]
+    return [{"family": fams[i % len(fams)], "i": i} for i in range(n)] + [{"family": "shared-scaling", "i": i} for i in range(n // 40)]
 
 
 def _copy(v):
@@ -243,7 +243,51 @@ def probe_reuse(cfg, rng, ctx):
     return out
 
 
+def run_shared_scaling(case, ctx):
+    """Two aggregation modules given the same AggScaling helper (undamped), evaluated in network order (both responses, then the
+    sensitivities in reverse): the factor each module back-propagates with must be the one of its own last response
+    (the 'frozen scaling' of the quantifier: g = s * w * d approx/dx with s = true/approx at this module's input)."""
+    import pymoto as pym
+    rng = ctx.rng("shared-scaling", case["i"])
+    kinds = [str(rng.choice(["PNorm", "KSFunction", "SoftMinMax"])) for _ in range(2)]
+    pars = [float(rng.uniform(2, 10)) for _ in range(2)]
+    xs = [rng.uniform(0.5, 3.0, int(rng.integers(2, 8))) for _ in range(2)]
+    helper = pym.AggScaling("max", damping=0.0)
+    arg = {"PNorm": "p", "KSFunction": "rho", "SoftMinMax": "alpha"}
+    mods = [getattr(pym, k)(pym.Signal("x", x.copy()), pym.Signal("y"), scaling=helper, **{arg[k]: p}) for k, p, x in zip(kinds, pars, xs)]
+    for m in mods:
+        m.response()
+
+    def approx(k, p, z):
+        if k == "PNorm":
+            return np.sum(z ** p) ** (1 / p)
+        if k == "KSFunction":
+            return np.log(np.sum(np.exp(p * z))) / p
+        e = np.exp(p * z - np.max(np.real(p * z)))
+        return np.sum(z * e) / np.sum(e)
+    worst = 0.0
+    for m, k, p, x in reversed(list(zip(mods, kinds, pars, xs))):
+        w = float(rng.standard_normal())
+        m.sig_out[0].sensitivity = w
+        m.sensitivity()
+        g = np.asarray(m.sig_in[0].sensitivity)
+        v = rng.standard_normal(x.size)
+        h = 1e-30
+        dap = float(np.imag(approx(k, p, x + 1j * h * v)) / h)
+        sfac = float(np.max(x) / np.real(approx(k, p, x)))
+        ref = w * sfac * dap
+        an = float(g @ v)
+        err = abs(an - ref) / max(abs(an), abs(ref), 1e-300)
+        worst = max(worst, err)
+        ctx.count("probes")
+        if err > 1e-9:
+            raise Violation(f"adjoint-mismatch/{k}-with-shared-scaling-helper", an=an, ref=ref, rel_err=err, kinds=kinds)
+    return {"key": "shared-scaling/" + "-".join(kinds), "nontrivial": True, "obs": {"max_rel_err": worst}}
+
+
 def run_case(case, ctx):
+    if case["family"] == "shared-scaling":
+        return run_shared_scaling(case, ctx)
     rng = ctx.rng("c01", case["family"], case["i"])
     with warnings.catch_warnings():
         warnings.simplefilter("ignore")
